@@ -93,7 +93,7 @@ CHECKS = {
         ref="4/C17"),
     "C18": dict(
         technique="property-based testing (rapid) with metamorphic oracles: twelve identities between separately compiled programs (and the single expression `(lhs) == (rhs)`), related by the harness; a static-type identity for nested closures via checker.Check",
-        text="Exploration: generated arrays (environment arrays of every element type, literals, ranges, results of other builtins, slices, conditionals; empty/singleton/long) and generated predicates/mappers that themselves contain builtins (nesting to 3, thorough 5) instantiate all/any, none/any, one/count, count/filter, len-map, filter-as-mask, closure scoping (own element preserved across an inner builtin; innermost `#` ranges over the innermost collection, 2-3 levels, dynamically and in the checker's static type), in-range vs two-sided comparison (int/int64 operands), and slicing partitions (length, elementwise, strings); optimiser on and off, typed and untyped. No expected-value table and no reference evaluator.",
+        text="Exploration: generated arrays (environment arrays of every element type, literals, ranges, results of other builtins, slices, conditionals; empty/singleton/long) and generated predicates/mappers that themselves contain builtins (nesting to 3, thorough 5) instantiate all/any, none/any, one/count, count/filter, len-map, filter-as-mask, closure scoping (own element preserved across an inner builtin; innermost `#` ranges over the innermost collection, 2-3 levels, dynamically and in the checker's static type), in-range vs two-sided comparison (int/int64 operands), and slicing partitions (length, elementwise, strings); optimiser on and off, typed and untyped. No expected-value table; the reference evaluator is consulted only when BOTH sides of an identity fail (they must not, if the evaluation is defined).",
         note="Trusted: Equiv; the identities themselves. For the four predicate identities both sides must fail together; elsewhere one-sided failures are skipped and counted. in-range is restricted to int/int64 operands because the promotion rule (C14) makes the identity false for narrower kinds even in principle; F09/F15 regions excluded.",
         ref="4/C18"),
 }
